@@ -2,6 +2,7 @@
    the runner.  I/O glue only.
    call <key> missing=0 child=<state>@<t>|none act=<state>@<t>,...|- open=0 parent=<t>|none inputs=1 outs=1 unsat=0 quiet=1
    forced <key> act=<state>@<t>,... inputs=1
+   caught <key> child=<state>@<t>|none act=<state>@<t>,... open=0 inputs=1
    ret <key> keep=1 ended=1 procrow=<state>|none tasks=4 open=0 created=4 refused=1 *)
 open M_multi
 let rec nat_of_int n = if n <= 0 then O else S (nat_of_int (n - 1))
@@ -36,6 +37,10 @@ let () =
             forced_check { co_missing = false; co_child_end = None;
                            co_act_ends = (match kv fields "act" with "-" -> [] | s -> List.map st_at (String.split_on_char ',' s));
                            co_act_open = false; co_parent_end = None; co_inputs_ok = b "inputs"; co_outs_ok = true; co_unsatisfied = false; co_quiescent = true }
+          | "caught" ->
+            caught_check { co_missing = false; co_child_end = (match kv fields "child" with "none" -> None | s -> Some (st_at s));
+                           co_act_ends = (match kv fields "act" with "-" -> [] | s -> List.map st_at (String.split_on_char ',' s));
+                           co_act_open = b "open"; co_parent_end = None; co_inputs_ok = b "inputs"; co_outs_ok = true; co_unsatisfied = false; co_quiescent = true }
           | "ret" ->
             ret_check { ro_keep = b "keep"; ro_ended = b "ended";
                         ro_procrow = (match kv fields "procrow" with "none" -> None | s -> Some (state_of_name s));
